@@ -39,7 +39,7 @@ var ctVariants = map[string][]string{
 	"jrd":      {"application/jrd+json", "application/jrd+json; charset=utf-8"},
 	/* foreign types, among them names that go on after a tolerated one with further token characters */
 	"html": {"text/html; charset=utf-8", "text/plain", "application/xml", "application/json5", "application/activity+json2", "text/json",
-		"application/json|text/html", "application/json*", "application/json%2Bhtml", "application/activity+json~draft", "application/ld+json'x", "application/jrd+json!", "application/json`"},
+		"application/activity", "application/ld; charset=utf-8", "application/j", "application/jrd", "applicat", "application/json|text/html", "application/json*", "application/json%2Bhtml", "application/activity+json~draft", "application/ld+json'x", "application/jrd+json!", "application/json`"},
 	"bad":      {"garbage", "/json", "application/"},
 	"wild":     {"*/*", "application/*", "*/*; charset=utf-8", "application/*; charset=utf-8", "*/json"},
 }
@@ -157,6 +157,14 @@ func (w *World) Render(id string, r Resp, rng *rand.Rand) []byte {
 			line := "X-Pad: "
 			line += strings.Repeat("a", size-len(line)) + tail
 			headers = append(headers, line)
+		}
+	}
+	/* lines that only look like the header the response does not have: a continuation line (it begins with a blank: it belongs to the
+	   field before it), a name with a blank before its colon */
+	if len(r.Ct) == 0 && r.Loc == "" && rng.Intn(3) == 0 {
+		headers = append(headers, "X-Note: see"+eol+pick(rng, []string{" ", "\t"})+pick(rng, []string{"Content-Type: application/activity+json", "Location: " + w.URL(id) + "x", "content-type: application/json"}))
+		if rng.Intn(2) == 0 {
+			headers = append(headers, pick(rng, []string{"Content-Type : application/activity+json", "Location : " + w.URL(id) + "y", "Content-Type\t: application/json"}))
 		}
 	}
 	/* a line of blanks only is not the empty line that ends the headers (it continues the header before it); what
